@@ -22,37 +22,48 @@ case "$prop" in
   *)   pkg=dv_check; bin=dv_check ;;
 esac
 log="work/log/build.$prop.$$.log"
-exec 9> work/build.lock
-flock 9
-(
-  cd harness || exit 2
-  if [ "$pkg" = dv_check ]; then
-    # (re)generate the random derive inputs for this seed, then build
-    cargo build -q -p dv_gen >"../$log" 2>&1 || exit 2
-    if [ "$mode" = replay ]; then
-      gseed=$(python3 -c 'import json,sys; print(json.load(open(sys.argv[1])).get("program_seed", 1))' "$arg")
-    else
-      gseed="$VERIF_SEED"
+# thorough runs of the properties that use generated derive inputs go over several program sets
+rounds=1
+if [ "$mode" = check ] && [ "$arg" = thorough ]; then
+  case "$prop" in C01|C02|C03|C04|C06|C07|C08|C09|C10|C11|C12|C14|C15) rounds="${VERIF_PROGRAM_SETS:-4}" ;; esac
+fi
+rc=0
+for round in $(seq 0 $((rounds-1))); do
+  exec 9> work/build.lock
+  flock 9
+  (
+    cd harness || exit 2
+    if [ "$pkg" = dv_check ]; then
+      # (re)generate the random derive inputs for this seed, then build
+      cargo build -q -p dv_gen >"../$log" 2>&1 || exit 2
+      if [ "$mode" = replay ]; then
+        gseed=$(python3 -c 'import json,sys; print(json.load(open(sys.argv[1])).get("case",{}).get("program_seed", json.load(open(sys.argv[1])).get("seed", 1)))' "$arg")
+      else
+        gseed=$((VERIF_SEED + 1000*round))
+      fi
+      ../target/debug/dv_gen "$gseed" generated/src/types.rs >>"../$log" 2>&1 || exit 2
     fi
-    ../target/debug/dv_gen "$gseed" generated/src/types.rs >>"../$log" 2>&1 || exit 2
+    cargo build -q -p "$pkg" >>"../$log" 2>&1 || exit 2
+    cp "../target/debug/$bin" "../work/bin/$bin.$$" || exit 2
+  )
+  brc=$?
+  flock -u 9
+  if [ $brc -ne 0 ]; then
+    echo "INFRASTRUCTURE: build failed (see $log)" >&2
+    tail -30 "$log" >&2
+    exit 2
   fi
-  cargo build -q -p "$pkg" >>"../$log" 2>&1 || exit 2
-  cp "../target/debug/$bin" "../work/bin/$bin.$$" || exit 2
-)
-rc=$?
-flock -u 9
-if [ $rc -ne 0 ]; then
-  echo "INFRASTRUCTURE: build failed (see $log)" >&2
-  tail -30 "$log" >&2
-  exit 2
-fi
-rm -f "$log"
-if [ "$mode" = replay ]; then
-  "work/bin/$bin.$$" --replay "$arg"; rc=$?
-else
-  "work/bin/$bin.$$" "$prop" "$arg"; rc=$?
-fi
-rm -f "work/bin/$bin.$$"
+  rm -f "$log"
+  if [ "$mode" = replay ]; then
+    "work/bin/$bin.$$" --replay "$arg"; rc=$?
+  else
+    DV_ROUND=$round DV_ROUNDS=$rounds "work/bin/$bin.$$" "$prop" "$arg"; rc=$?
+  fi
+  rm -f "work/bin/$bin.$$"
+  # anything but 0/1 (signal, abort, harness panic) is an infrastructure problem
+  if [ $rc -ne 0 ] && [ $rc -ne 1 ]; then echo "INFRASTRUCTURE: check process ended with status $rc" >&2; exit 2; fi
+  [ $rc -eq 1 ] && break
+done
 # thorough tier: coverage-guided fuzz stage with the semantic oracle inside the target
 if [ "$mode" = check ] && [ "$arg" = thorough ] && { [ $rc -eq 0 ] || [ $rc -eq 1 ]; }; then
   case "$prop" in
@@ -63,6 +74,4 @@ if [ "$mode" = check ] && [ "$arg" = thorough ] && { [ $rc -eq 0 ] || [ $rc -eq 
   esac
   [ $frc -eq 1 ] && rc=1
 fi
-# anything but 0/1 (signal, abort, harness panic) is an infrastructure problem
-if [ $rc -ne 0 ] && [ $rc -ne 1 ]; then echo "INFRASTRUCTURE: check process ended with status $rc" >&2; exit 2; fi
 exit $rc
